@@ -129,9 +129,12 @@ def results():
     for d in sorted(glob.glob(SEEDED + '/C??/?/')):
         m = json.load(open(d + 'meta.json'))
         c = m.get('check', {})
-        ch = ' '.join(m.get('change', '').split())[:160]
-        rows.append(f"| {m['property']}/{m['variant']} | {ch} | {c.get('result','not run')} | {', '.join(c.get('signatures', [])[:3])} |")
-    open(SEEDED + '/RESULTS.md', 'w').write('# Seeded property-breaking changes vs. the quick checks\n\nEach change compiles and passes the existing 802-test suite (re-confirmed with tools/confirm_seed.sh); the check of the property it breaks was run with the patch applied to /repo\'s working tree (tools/seedmatrix.py run).\n\n| seed | change | quick check | first signatures |\n|---|---|---|---|\n' + '\n'.join(rows) + '\n')
+        ch = ' '.join(m.get('change', '').split())
+        ch = re.sub(r'^(Seed|Variant|C\d\d)[^:]*?--?\s*', '', ch)
+        ch = re.sub(r'^Change\s*(\([^)]*\))?\s*:?\s*-*\s*', lambda mm: (mm.group(1) or '') + ' ', ch).strip()[:200].replace('|', '\\|')
+        sg = ', '.join(x[:90].replace('|', '\\|') for x in c.get('signatures', [])[:2])
+        rows.append("| %s/%s | %s | %s | %s | %s |" % (m['property'], m['variant'], ch, c.get('result', 'not run'), sg, c.get('wall_s', '')))
+    open(SEEDED + '/RESULTS.md', 'w').write('# Seeded property-breaking changes vs. the quick checks\n\nEach change compiles and passes the existing 802-test suite (re-confirmed with tools/confirm_seed.sh); the check of the property it breaks was run with the patch applied to /repo\'s working tree (tools/seedmatrix.py run).\n\n| seed | change | quick check | first signatures | wall s |\n|---|---|---|---|---|\n' + '\n'.join(rows) + '\n')
 
 if __name__ == '__main__':
     if len(sys.argv) >= 3 and sys.argv[1] == 'import':
